@@ -9,6 +9,11 @@ from rzilcompiler.Transformer.Pures.Pure import Pure
 from rzilcompiler.Transformer.Pures.PureExec import PureExec
 
 
+def is_bool_typed(pure: Pure) -> bool:
+    """True if the pure holds a boolean (e.g. a local var which got the result of a comparison)."""
+    return bool(pure.value_type and pure.value_type.group & VTGroup.BOOL)
+
+
 class BooleanOpType(StrEnum):
     AND = "&&"
     OR = "||"
@@ -32,6 +37,7 @@ class BooleanOp(PureExec):
                 isinstance(self.ops[0], BooleanOp)
                 or isinstance(self.ops[0], CompareOp)
                 or isinstance(self.ops[0], Bool)
+                or is_bool_typed(self.ops[0])
             )
             else f"NON_ZERO({self.ops[0].il_read()})"
         )
@@ -44,6 +50,7 @@ class BooleanOp(PureExec):
                 isinstance(self.ops[1], BooleanOp)
                 or isinstance(self.ops[1], CompareOp)
                 or isinstance(self.ops[1], Bool)
+                or is_bool_typed(self.ops[1])
             )
             else f"NON_ZERO({self.ops[1].il_read()})"
         )
